@@ -11,15 +11,19 @@ Inductive sop :=
 | ORound          (* one scheduler round at the current storage oracle, run to quiescence *)
 | ORecover        (* error back-off elapsed: drain, round, and the round of the buffered tick *)
 | ORestart
+| OHold           (* the main storage stops answering: every storage call blocks from now on *)
+| ORelease        (* it answers again: blocked calls finish, a stuck round goes on, then the buffered tick's round *)
 | OObs.
 
 (* what the harness records at a quiescent point *)
 Record iobs := mkO {
   o_calls : list call; o_size : N; o_cmap : list addr; o_csum : N;
-  o_dir : list addr; o_dsum : N; o_infl : list addr; o_blob : list addr }.
+  o_dir : list addr; o_dsum : N; o_infl : list addr; o_blob : list addr;
+  o_held : bool;                 (* observed while the main storage is blocked: not a quiescent point *)
+  o_pend : list (list addr) }.   (* batches of the storage calls in progress *)
 
 Record case17 := mkC {
-  c_p : params; c_ordered : bool; c_model : bool;   (* c_model: compare with the model (deterministic kinds) *)
+  c_p : params; c_workers : nat; c_ordered : bool; c_model : bool;   (* c_model: compare with the model (deterministic kinds) *)
   c_script : list sop; c_obs : list iobs; c_must : list addr }.
 
 Fixpoint ninsert (x : nat) (l : list nat) : list nat :=
@@ -45,16 +49,115 @@ Fixpoint calls_permb (a b : list call) : bool :=
   | x :: r => match remove_call x b with Some b' => calls_permb r b' | None => false end
   end.
 
-Record mstate := mkM { m_st : st; m_poison : list addr; m_failall : bool; m_calls : list call }.
+(* m_held: storage calls block.  m_tickbuf: a tick fired while the scheduler was stuck inside a round (the
+   ticker's channel holds one tick; the scheduler takes it as soon as the round is over). *)
+Record mstate := mkM { m_st : st; m_poison : list addr; m_failall : bool; m_calls : list call;
+                       m_held : bool; m_tickbuf : bool }.
+Definition with_st (m : mstate) (s : st) : mstate :=
+  mkM s (m_poison m) (m_failall m) (m_calls m) (m_held m) (m_tickbuf m).
 
 Definition oracle (m : mstate) (objs : list addr) : bool :=
   m_failall m || existsb (fun a => mem a (m_poison m)) objs.
 
 Definition do_round (p : params) (m : mstate) : option mstate :=
   match seq_round p (oracle m) (m_st m) with
-  | Some (s', cs) => Some (mkM s' (m_poison m) (m_failall m) (m_calls m ++ cs))
+  | Some (s', cs) => Some (mkM s' (m_poison m) (m_failall m) (m_calls m ++ cs) (m_held m) (m_tickbuf m))
   | None => None
   end.
+
+(* ---- schedules with a blocked main storage (all built from Model.step labels, so every state they reach
+        is covered by the C17 theorems) ----
+   W flush workers; a worker that receives a batch reads its objects and blocks in the storage call
+   (phase WGot) until the release.  The scheduler goes on until the round is over or it has a batch to hand
+   over and no worker is free (flushCh is unbuffered): it then stays at that flush point. *)
+Fixpoint held_loop (fuel : nat) (p : params) (W : nat) (s : st) : option st :=
+  match fuel with
+  | 0 => None
+  | S f =>
+      match sch s with
+      | None => Some s
+      | Some ss =>
+          if at_flush p ss then
+            if tok s then
+              match step p (LSched DAbort) s with Some s' => held_loop f p W s' | None => None end
+            else if Nat.ltb (length (work s)) W then
+              match step p (LSched DSend) s with
+              | None => None
+              | Some s1 =>
+                  let k := length (work s1) - 1 in
+                  match step p (LRead k) s1 with
+                  | None => None
+                  | Some s2 =>
+                      match nth_error (work s2) k with
+                      | Some (mkW b (WDeleting [])) =>      (* flushSingle, object gone: no storage call *)
+                          match step p (LDone k) s2 with Some s3 => held_loop f p W s3 | None => None end
+                      | Some _ => held_loop f p W s2
+                      | None => None
+                      end
+                  end
+              end
+            else Some s
+          else
+            match step p (LSched DSend) s with Some s' => held_loop f p W s' | None => None end
+      end
+  end.
+
+(* a tick while the storage is blocked *)
+Definition held_tick (p : params) (W : nat) (m : mstate) : option mstate :=
+  let s := m_st m in
+  match sch s with
+  | Some _ => Some (mkM s (m_poison m) (m_failall m) (m_calls m) (m_held m) true)
+  | None =>
+      match csize s with
+      | 0%N => Some m
+      | _ =>
+          let srt := snapshot s in
+          match step p (LBegin srt) s with
+          | None => None
+          | Some s1 => option_map (with_st m) (held_loop (4 * length srt + 4) p W s1)
+          end
+      end
+  end.
+
+(* the blocked storage calls finish (oldest batch first) *)
+Fixpoint finish_held (fuel : nat) (p : params) (fails : list addr -> bool) (s : st) (calls : list call)
+  : option (st * list call) :=
+  match fuel with
+  | 0 => None
+  | S f =>
+      match work s with
+      | [] => Some (s, calls)
+      | mkW b (WGot objs) :: _ =>
+          let bad := fails objs in
+          match run p (if bad then [LStore 0 false; LDone 0]
+                       else [LStore 0 true] ++ repeat (LDelOne 0) (length objs) ++ [LDone 0]) s with
+          | Some s' => finish_held f p fails s' (calls ++ [(objs, negb bad)])
+          | None => None
+          end
+      | _ => None
+      end
+  end.
+
+Definition release (p : params) (m : mstate) : option mstate :=
+  let fails := oracle m in
+  let s := m_st m in
+  match finish_held (S (length (work s))) p fails s [] with
+  | None => None
+  | Some (s1, cs1) =>
+      (* a round stuck at a hand-over goes on, one batch after the other *)
+      match (match sch s1 with
+             | None => Some (s1, cs1)
+             | Some ss => seq_round_loop (4 * length (sorted ss) + 4) p fails s1 cs1
+             end) with
+      | None => None
+      | Some (s2, cs2) =>
+          let m2 := mkM s2 (m_poison m) (m_failall m) (m_calls m ++ cs2) false false in
+          if m_tickbuf m then do_round p m2 else Some m2
+      end
+  end.
+
+Definition pending (s : st) : list call :=
+  flat_map (fun w => match wph w with WGot objs => [(objs, true)] | _ => [] end) (work s).
 
 Definition obs_ok (ordered : bool) (m : mstate) (o : iobs) : bool :=
   let s := m_st m in
@@ -65,54 +168,66 @@ Definition obs_ok (ordered : bool) (m : mstate) (o : iobs) : bool :=
   && list_eqb (nsort (infl s)) (o_infl o)
   && list_eqb (nsort (blob s)) (o_blob o)
   && N.eqb (msum (cmap s)) (o_csum o) && N.eqb (msum (fs s)) (o_dsum o)
-  && quiescentb s.
+  && Bool.eqb (m_held m) (o_held o)
+  && calls_permb (pending s) (map (fun b => (b, true)) (o_pend o))
+  && (m_held m || quiescentb s).
 
 (* returns false on the first disagreement *)
-Fixpoint interp (p : params) (ordered : bool) (ops : list sop) (m : mstate) (obs : list iobs) : bool :=
+Fixpoint interp (p : params) (W : nat) (ordered : bool) (ops : list sop) (m : mstate) (obs : list iobs) : bool :=
   match ops with
   | [] => match obs with [] => true | _ => false end
   | op :: r =>
       match op with
       | OPut a sz => match step p (LPut a sz) (m_st m) with
-                     | Some s' => interp p ordered r (mkM s' (m_poison m) (m_failall m) (m_calls m)) obs
+                     | Some s' => interp p W ordered r (with_st m s') obs
                      | None => false end
       | ODel a => match step p (LDel a) (m_st m) with
-                  | Some s' => interp p ordered r (mkM s' (m_poison m) (m_failall m) (m_calls m)) obs
+                  | Some s' => interp p W ordered r (with_st m s') obs
                   | None => false end
-      | OPoison a => interp p ordered r (mkM (m_st m) (a :: m_poison m) (m_failall m) (m_calls m)) obs
-      | OFailAll => interp p ordered r (mkM (m_st m) (m_poison m) true (m_calls m)) obs
-      | OHeal => interp p ordered r (mkM (m_st m) [] false (m_calls m)) obs
-      | ORound => match do_round p m with Some m' => interp p ordered r m' obs | None => false end
+      | OPoison a => interp p W ordered r (mkM (m_st m) (a :: m_poison m) (m_failall m) (m_calls m) (m_held m) (m_tickbuf m)) obs
+      | OFailAll => interp p W ordered r (mkM (m_st m) (m_poison m) true (m_calls m) (m_held m) (m_tickbuf m)) obs
+      | OHeal => interp p W ordered r (mkM (m_st m) [] false (m_calls m) (m_held m) (m_tickbuf m)) obs
+      | OHold => interp p W ordered r (mkM (m_st m) (m_poison m) (m_failall m) (m_calls m) true (m_tickbuf m)) obs
+      | ORelease => if m_held m
+                    then match release p m with Some m' => interp p W ordered r m' obs | None => false end
+                    else interp p W ordered r m obs
+      | ORound => match (if m_held m then held_tick p W m else do_round p m) with
+                  | Some m' => interp p W ordered r m' obs | None => false end
       | ORecover =>
           let m1 := if tok (m_st m)
                     then match step p LTick (m_st m) with
-                         | Some s' => Some (mkM s' (m_poison m) (m_failall m) (m_calls m)) | None => None end
+                         | Some s' => Some (with_st m s') | None => None end
                     else Some m in
           match m1 with
           | None => false
           | Some m1 => match do_round p m1 with
                        | None => false
-                       | Some m2 => match do_round p m2 with Some m3 => interp p ordered r m3 obs | None => false end
+                       | Some m2 => match do_round p m2 with Some m3 => interp p W ordered r m3 obs | None => false end
                        end
           end
       | ORestart => match step p LRestart (m_st m) with
-                    | Some s' => interp p ordered r (mkM s' (m_poison m) (m_failall m) (m_calls m)) obs
+                    | Some s' => interp p W ordered r (with_st m s') obs
                     | None => false end
       | OObs => match obs with
                 | [] => false
-                | o :: t => obs_ok ordered m o && interp p ordered r (mkM (m_st m) (m_poison m) (m_failall m) []) t
+                | o :: t => obs_ok ordered m o
+                            && interp p W ordered r (mkM (m_st m) (m_poison m) (m_failall m) [] (m_held m) (m_tickbuf m)) t
                 end
       end
   end.
 
 Definition model_ok (c : case17) : bool :=
-  if c_model c then interp (c_p c) (c_ordered c) (c_script c) (mkM init [] false []) (c_obs c) else true.
+  if c_model c then interp (c_p c) (c_workers c) (c_ordered c) (c_script c) (mkM init [] false [] false false) (c_obs c)
+  else true.
 
 (* reference: right-hand sides of C17_size_exact / C17_no_inflight_leak at every quiescent point, and of
    C17_progress at the end of the script (storage healed, writes stopped, >= 3 rounds later) *)
+(* while the storage is blocked the point is not quiescent: the batches held by the workers must be marked
+   in flight (C17_no_inflight_leak: in-flight = scheduler window + worker batches); otherwise it is empty *)
 Definition ref_obs_ok (o : iobs) : bool :=
   N.eqb (o_size o) (o_dsum o) && N.eqb (o_csum o) (o_dsum o) && list_eqb (o_cmap o) (o_dir o)
-  && match o_infl o with [] => true | _ => false end.
+  && (if o_held o then forallb (fun b => forallb (fun a => mem a (o_infl o)) b) (o_pend o)
+      else match o_infl o, o_pend o with [], [] => true | _, _ => false end).
 Definition ref_final_ok (must : list addr) (o : iobs) : bool :=
   match o_dir o with [] => true | _ => false end && N.eqb (o_size o) 0
   && forallb (fun a => mem a (o_blob o)) must.
